@@ -976,12 +976,91 @@ func discoveryOnlyPredicate(fn *ssa.Function, reg *Registry) bool {
 		}
 	})
 	if !okCmp {
-		return false
+		return discoveryOnlyByContainsFunc(fn, disc)
 	}
 	// no return of a possibly-true value inside the loop
 	for b := range loopBlocks {
 		if ret, ok := b.Instrs[len(b.Instrs)-1].(*ssa.Return); ok {
 			if c, ok := ret.Results[0].(*ssa.Const); !ok || c.Value == nil || c.Value.String() != "false" {
+				return false
+			}
+		}
+	}
+	return true
+}
+
+
+// discoveryOnlyByContainsFunc: the other spelling of the predicate, `... && !slices.ContainsFunc(items, isOther)` with
+// isOther(item) = item.Operation != DiscoverVersions: every value the function can return is false or the negation of
+// that call.
+func discoveryOnlyByContainsFunc(fn *ssa.Function, disc int64) bool {
+	var cf *ssa.Call
+	allInstrs(fn, func(in ssa.Instruction) {
+		if c, ok := in.(*ssa.Call); ok {
+			if id := callID(&c.Call); id.pkg == "slices" && id.name == "ContainsFunc" {
+				cf = c
+			}
+		}
+	})
+	if cf == nil || len(cf.Call.Args) != 2 {
+		return false
+	}
+	var pred *ssa.Function
+	switch a := cf.Call.Args[1].(type) {
+	case *ssa.MakeClosure:
+		pred, _ = a.Fn.(*ssa.Function)
+	case *ssa.Function:
+		pred = a
+	case *ssa.UnOp:
+		// a local holding the closure
+		if al, ok := a.X.(*ssa.Alloc); ok {
+			for _, ref := range *al.Referrers() {
+				if st, ok := ref.(*ssa.Store); ok {
+					if mc, ok := st.Val.(*ssa.MakeClosure); ok {
+						pred, _ = mc.Fn.(*ssa.Function)
+					}
+				}
+			}
+		}
+	}
+	if pred == nil || len(pred.Blocks) != 1 {
+		return false
+	}
+	ret, ok := pred.Blocks[0].Instrs[len(pred.Blocks[0].Instrs)-1].(*ssa.Return)
+	if !ok || len(ret.Results) != 1 {
+		return false
+	}
+	bo, ok := ret.Results[0].(*ssa.BinOp)
+	if !ok || bo.Op != token.NEQ || typeName(bo.X.Type()) != "Operation" {
+		return false
+	}
+	if k, ok := constIntVal(bo.Y); !ok || k != disc {
+		return false
+	}
+	// returns of fn: false, or !ContainsFunc(...)
+	var okVal func(v ssa.Value, d int) bool
+	okVal = func(v ssa.Value, d int) bool {
+		if d > 4 {
+			return false
+		}
+		switch x := v.(type) {
+		case *ssa.Const:
+			return x.Value != nil && x.Value.String() == "false"
+		case *ssa.UnOp:
+			return x.Op == token.NOT && x.X == ssa.Value(cf)
+		case *ssa.Phi:
+			for _, e := range x.Edges {
+				if !okVal(e, d+1) {
+					return false
+				}
+			}
+			return true
+		}
+		return false
+	}
+	for _, b := range fn.Blocks {
+		if r2, ok := b.Instrs[len(b.Instrs)-1].(*ssa.Return); ok {
+			if len(r2.Results) != 1 || !okVal(r2.Results[0], 0) {
 				return false
 			}
 		}
